@@ -21,6 +21,7 @@ import (
 	"github.com/consensys/gnark-crypto/ecc/bn254"
 	"github.com/consensys/gnark-crypto/ecc/bn254/fp"
 	"github.com/consensys/gnark/backend/groth16"
+	"github.com/consensys/gnark/constraint"
 	"github.com/consensys/gnark/frontend"
 
 	"verifsim/oracle"
@@ -122,6 +123,33 @@ func bigs2(xs [][]*big.Int) [][]big.Int {
 		out[i] = bigs(xs[i])
 	}
 	return out
+}
+
+// DummySystem wraps a compiled constraint system in the repository's ProvingSystem with gnark's
+// DummySetup keys (random, unverifiable - but the whole prover path runs: shape validation, witness
+// construction, solving, the Groth16 prover). It answers one question cheaply at EVERY dimension,
+// including the deepest trees: does Prove* return a proof or an error for these parameters?
+func DummySystem(mode string, depth, batch int, ccs constraint.ConstraintSystem) (*System, error) {
+	pk, err := groth16.DummySetup(ccs)
+	if err != nil {
+		return nil, err
+	}
+	return &System{Mode: mode, Depth: depth, Batch: batch, PS: &prover.ProvingSystem{TreeDepth: uint32(depth), BatchSize: uint32(batch), ProvingKey: pk, ConstraintSystem: ccs}}, nil
+}
+
+// ProveErr runs the repository's prover for the witness expressed as typed parameters and returns its error.
+func (s *System) ProveErr(insw *oracle.InsertionWitness, delw *oracle.DeletionWitness) (err error) {
+	defer func() {
+		if r := recover(); r != nil {
+			err = fmt.Errorf("panic: %v", r)
+		}
+	}()
+	if s.Mode == "insertion" {
+		_, err = s.PS.ProveInsertion(InsertionParams(insw))
+	} else {
+		_, err = s.PS.ProveDeletion(DeletionParams(delw))
+	}
+	return err
 }
 
 // InsertionParams converts a witness into the repository's typed parameters (start index
@@ -310,6 +338,51 @@ func FindShortPoints(n1, n2 int) *ShortPoints {
 		acc2.AddAssign(&g2j)
 	}
 	return sp
+}
+
+// BoundaryG1 returns genuine curve points (BN254 G1 has cofactor 1, so every curve point is in the group)
+// whose x coordinate sits at the edges of the base field's range: the largest values below q, the values
+// around the scalar-field order r (q > r: a coordinate in [r, q) is legal for a proof and is not a legal
+// scalar), around 2^253 and 2^252 (top-bit patterns that binary point encodings use as flags), and the
+// smallest values. For each anchor the nearest x with x^3+3 a square is taken, with both signs of y.
+func BoundaryG1() []bn254.G1Affine {
+	q := fp.Modulus()
+	r := ecc.BN254.ScalarField()
+	var out []bn254.G1Affine
+	at := func(start *big.Int, dir int64, want int) {
+		x := new(big.Int).Set(start)
+		for found, tries := 0, 0; found < want && tries < 400; tries++ {
+			if x.Sign() >= 0 && x.Cmp(q) < 0 {
+				var fx, rhs, y fp.Element
+				fx.SetBigInt(x)
+				rhs.Square(&fx).Mul(&rhs, &fx)
+				var three fp.Element
+				three.SetUint64(3)
+				rhs.Add(&rhs, &three)
+				if y.Sqrt(&rhs) != nil {
+					var ny fp.Element
+					ny.Neg(&y)
+					for _, yy := range []fp.Element{y, ny} {
+						pt := bn254.G1Affine{X: fx, Y: yy}
+						if pt.IsOnCurve() && !pt.IsInfinity() {
+							out = append(out, pt)
+						}
+					}
+					found++
+				}
+			}
+			x.Add(x, big.NewInt(dir))
+		}
+	}
+	at(new(big.Int).Sub(q, big.NewInt(1)), -1, 3)   // top of the base field
+	at(new(big.Int).Set(r), +1, 3)                  // r, r+1, ... (not a scalar, still a coordinate)
+	at(new(big.Int).Sub(r, big.NewInt(1)), -1, 2)   // just below r
+	at(new(big.Int).Lsh(big.NewInt(1), 253), +1, 2) // 0b001...: bit 253 set
+	at(new(big.Int).Sub(new(big.Int).Lsh(big.NewInt(1), 253), big.NewInt(1)), -1, 2)
+	at(new(big.Int).Lsh(big.NewInt(1), 252), +1, 1)
+	mid := new(big.Int).Add(r, new(big.Int).Rsh(new(big.Int).Sub(q, r), 1))
+	at(mid, +1, 2) // middle of [r, q)
+	return out
 }
 
 func CoordsOfPoints(a bn254.G1Affine, b bn254.G2Affine, c bn254.G1Affine) [8]*big.Int {
